@@ -41,12 +41,26 @@ THEOREMS = [NS + n for n in [
     "try_parse_restores_level",
     "level_preserved",
     "try_parse_level_independent",
-    "unsupported_levels",
-    "unsupported_raise_iff_warn_logs",
-    "immediate_raises_first",
+    "warn_batches_are_prefixes",
+    "raise_errors_prefix_of_warn",
+    "merge_errors_singletons",
+    "xrun_confined",
+    "x_ignore_warn_same_partial",
+    "x_strict_iff_warn_partial",
+    "hard_error_level_blind",
+    "hint_subparser_counterexample",
+    "hint_subparser_confined_ok",
+    "builder_direct_raise_counterexample",
+    "unsupported_levels_partial",
+    "unsupported_raise_iff_warn_logs_partial",
+    "immediate_raises_first_partial",
+    "hard_unsupported_counterexample",
     "generate_resets_messages",
     "level_sites_ok",
     "level_skeletons_ok",
+    "direct_raise_sites_ok",
+    "nested_parser_sites_ok",
+    "unrestored_level_witness",
 ]]
 
 LEVELS = ["IGNORE", "WARN", "RAISE", "IMMEDIATE"]
@@ -296,6 +310,87 @@ def extract(chk: Check | None = None):
     return sites, skels
 
 
+SQLGLOT_ERRORS = {"ParseError", "UnsupportedError", "TokenError", "SqlglotError", "OptimizeError", "SchemaError", "ExecuteError"}
+NESTED_CALLS = {"maybe_parse", "parse_one", "parse_into", "parse_json_path", "to_json_path", "alias_", "build", "parser", "tokenize", "parse"}
+
+
+class RaiseVisitor(ast.NodeVisitor):
+    """`raise <sqlglot error>(…)` statements (they bypass raise_error / Generator.unsupported) and constructions of nested
+    parsers / tokenizers (sub-parsers run at a level of their own)"""
+
+    def __init__(self, fname):
+        self.f = fname
+        self.stack: list = []
+        self.raises: list = []
+        self.nested: list = []
+
+    def visit_ClassDef(self, n):
+        self.stack.append(n.name)
+        self.generic_visit(n)
+        self.stack.pop()
+
+    def visit_FunctionDef(self, n):
+        self.stack.append(n.name)
+        self.generic_visit(n)
+        self.stack.pop()
+
+    visit_AsyncFunctionDef = visit_FunctionDef
+
+    def where(self):
+        return ".".join(self.stack) or "<module>"
+
+    def visit_Raise(self, n):
+        e = n.exc
+        nm = None
+        if isinstance(e, ast.Call):
+            f = e.func
+            nm = f.id if isinstance(f, ast.Name) else f.attr if isinstance(f, ast.Attribute) else None
+        elif isinstance(e, ast.Name):
+            nm = e.id
+        if nm in SQLGLOT_ERRORS:
+            self.raises.append((self.f, self.where(), nm))
+        self.generic_visit(n)
+
+    def visit_Call(self, n):
+        f = n.func
+        nm = f.id if isinstance(f, ast.Name) else f.attr if isinstance(f, ast.Attribute) else None
+        keep = nm in NESTED_CALLS or bool(nm and nm.endswith("Parser") and nm[:1].isupper())
+        if keep and nm == "build":
+            keep = isinstance(f, ast.Attribute) and _const(f.value).endswith("DataType")
+        if keep and nm == "parser":
+            keep = isinstance(f, ast.Attribute)  # `parser(self)` on a local name is a dispatch-table entry, not a construction
+        if keep and nm == "parse":
+            keep = isinstance(f, ast.Attribute) and isinstance(f.value, ast.Name) and f.value.id == "sqlglot"
+        if keep:
+            lvl = next((_const(k.value) for k in n.keywords if k.arg == "error_level"), "-")
+            self.nested.append((self.f, self.where(), nm, lvl))
+        self.generic_visit(n)
+
+
+def extract_raises():
+    def scan(files):
+        R, N = [], []
+        for f in files:
+            v = RaiseVisitor(f)
+            v.visit(ast.parse(open(os.path.join(REPO, f), encoding="utf-8").read()))
+            R += v.raises
+            N += v.nested
+        return R, N
+
+    def sub(d):
+        return sorted(os.path.relpath(p, REPO) for p in glob.glob(os.path.join(REPO, "sqlglot", d, "*.py")))
+
+    pfiles = ["sqlglot/parser.py", "sqlglot/jsonpath.py", "sqlglot/expressions/core.py", "sqlglot/expressions/datatypes.py"] + sub("parsers") + sub("dialects")
+    gfiles = ["sqlglot/generator.py", "sqlglot/transforms.py"] + sub("generators") + sub("dialects")
+    pr, pn = scan(pfiles)
+    gr, _ = scan(gfiles)
+    counts: dict = {}
+    for k in pn:
+        counts[k] = counts.get(k, 0) + 1
+    nested = [k + (str(c),) for k, c in sorted(counts.items())]
+    return ([r for r in pr if r[2] == "ParseError"], [r for r in gr if r[2] == "UnsupportedError"], nested)
+
+
 def translate(chk: Check) -> str:
     sites, skels = extract(chk)
     chk.cov["level_sites"] = len(sites)
@@ -311,7 +406,22 @@ def translate(chk: Check) -> str:
               "def skeletons : List (String × List String) := ["]
     lines += ["  (" + lean_str(n) + ", " + lean_list(lean_str(x) for x in sk) + ")" + ("," if i + 1 < len(skels) else "")
               for i, (n, sk) in enumerate(skels)]
-    lines += ["]", "end SqlglotModel.Generated.C14", ""]
+    lines += ["]"]
+    pr, gr, nested = extract_raises()
+    chk.cov["direct_raise_sites"] = {"ParseError": len(pr), "UnsupportedError": len(gr), "nested_parser_constructions": len(nested)}
+
+    def table(name, doc, ty, rows):
+        out = [f"/-- {doc} -/", f"def {name} : List ({ty}) := ["]
+        out += ["  (" + ", ".join(lean_str(x) for x in r) + ")" + ("," if i + 1 < len(rows) else "") for i, r in enumerate(rows)]
+        return out + ["]"]
+
+    lines += table("parseErrorRaiseSites", "(file, function, class): `raise ParseError(…)` statements on the parsing side — each one bypasses raise_error",
+                   "String × String × String", pr)
+    lines += table("unsupportedRaiseSites", "(file, function, class): `raise UnsupportedError(…)` statements on the generating side — all but Generator.unsupported / generate bypass unsupported_level",
+                   "String × String × String", gr)
+    lines += table("nestedParserSites", "(file, function, callee, error_level argument, count): nested parser / tokenizer constructions reachable from parsing",
+                   "String × String × String × String × String", nested)
+    lines += ["end SqlglotModel.Generated.C14", ""]
     return "\n".join(lines)
 
 
@@ -921,6 +1031,11 @@ CORPUS = [
     "SELECT COUNT(DISTINCT) OVER (PARTITION BY ORDER BY) FROM t",
     "GRANT SELECT ON t TO u; SELECT 1 +",
     "SELECT 1 +; GRANT SELECT ON t TO u; SELECT CAST(a AS)",
+    "SELECT y =",
+    "SELECT y = FROM t; SELECT x = 1",
+    "SELECT DATE_ADD(a, 1), DATE_SUB(b, c)",
+    "SELECT /*+ */ 1",
+    "SELECT a:b:c::INT, x -> 'k' ->> FROM t",
 ]
 
 
@@ -1374,8 +1489,11 @@ def run(chk: Check) -> None:
     chk.assumptions += [
         "messages are interned (equal texts = equal ids); highlight_sql / message formatting is not modelled",
         "max_errors / max_unsupported >= 0 (a negative value slices from the end in Python)",
-        "sub-parsers started inside a parse (exp.maybe_parse for hints) run at their own default level IMMEDIATE; "
-        "_parse_hint_body's bare `except ParseError` is reachable only through such a sub-parser",
+        "sub-parsers started inside a parse are modelled as Comb.subConfined (errors caught / cannot arise: to_json_path, "
+        "DataType.from_str at IGNORE) or XComb.subParse (errors propagate: _parse_hint's maybe_parse at IMMEDIATE); direct "
+        "`raise ParseError` as XComb.hardRaise; which site is which is the audited allow-list (direct_raise_sites_ok, "
+        "nested_parser_sites_ok); the full level statement is proved for confined programs and refuted by counter-example "
+        "theorems otherwise; _parse_hint_body's bare `except ParseError` is reachable only through such a sub-parser",
         "only ERROR records emitted by check_errors count as 'WARN logged an error' (the Command fallback logs a WARNING)",
         "non-sqlglot exceptions and RecursionError are C05's subject; under IGNORE/WARN they are reported here as lenient-internal:*",
         "the executor's Python generator (generators/python.py) is not a transpilation target",
